@@ -54,6 +54,7 @@ pub struct Session {
     pub env: Rc<RefCell<Env>>,
     pub out: SharedBuf,
     pub poisoned: bool,
+    pub alloc_cap: u64,
 }
 
 pub const UNLIMITED: u64 = u64::MAX;
@@ -70,7 +71,7 @@ impl Session {
             false,
         );
         initialize(&mut env);
-        Session { env: Rc::new(RefCell::new(env)), out, poisoned: false }
+        Session { env: Rc::new(RefCell::new(env)), out, poisoned: false, alloc_cap: u64::MAX }
     }
 
     fn take_output(&self) -> String {
@@ -104,14 +105,18 @@ impl Session {
             Ok(Ok(Some(e))) => e,
         };
         noulith::verif::set_fuel(fuel);
+        crate::alloc::TRIPPED.store(false, std::sync::atomic::Ordering::SeqCst);
+        crate::alloc::CAP.store(self.alloc_cap, std::sync::atomic::Ordering::SeqCst);
         if count_alloc {
             crate::alloc::start();
         }
         let env = self.env.clone();
         let res = catch_unwind(AssertUnwindSafe(|| evaluate(&env, &expr)));
+        crate::alloc::CAP.store(u64::MAX, std::sync::atomic::Ordering::SeqCst);
         let (bytes, calls) = if count_alloc { crate::alloc::stop() } else { (0, 0) };
         let used = noulith::verif::fuel_used();
-        let exhausted = noulith::verif::exhausted();
+        let tripped = crate::alloc::TRIPPED.swap(false, std::sync::atomic::Ordering::SeqCst);
+        let exhausted = noulith::verif::exhausted() || tripped;
         noulith::verif::set_fuel(UNLIMITED);
         let output = self.take_output();
         let mut v = match res {
@@ -120,7 +125,7 @@ impl Session {
                 let p = take_panic().unwrap_or(("?".into(), "?".into()));
                 json!({"status": "panic", "phase": "eval", "panic": {"msg": p.0, "loc": p.1}})
             }
-            Ok(_) if exhausted => json!({"status": "fuel"}),
+            Ok(_) if exhausted => json!({"status": "fuel", "alloc_cap_tripped": tripped}),
             Ok(Ok(o)) => {
                 // canonicalisation may itself hit a broken invariant; keep it inside catch_unwind
                 match catch_unwind(AssertUnwindSafe(|| canon(&o))) {
